@@ -46,6 +46,8 @@ class Ctx:
         self.polls = []           # (seq, vtime, {nid: tuple})
         self.loop_errors = []     # messages given to the loop exception handler
         self.objs = {}            # nid -> {'ret': obj, 'exc': obj}
+        self.parent_of = {}       # nid -> nid of the enclosing scheduler
+        self.top = None
 
     def log(self, kind, nid, payload=None):
         self.seq += 1
@@ -83,15 +85,49 @@ def make_task_factory(ctx):
     return factory
 
 
-async def _spend(steps):
+async def _spend(steps, ctx=None, nid=None):
     for op, arg in steps:
         if op == 'sleep':
             await asyncio.sleep(arg)
         elif op == 'yield':
             for _ in range(arg):
                 await asyncio.sleep(0)
+        elif op == 'inspect':
+            _inspect(ctx, nid, arg)
         else:                                           # pragma: no cover
             raise ValueError(op)
+
+
+def _inspect(ctx, nid, arg):
+    """read-only introspection of a scheduler while it runs, from inside a
+    job (a monitoring job): "parent:list", "top:cycles", ..."""
+    who, what = arg.split(':')
+    target = ctx.top if who == 'top' else ctx.nodes.get(
+        ctx.parent_of.get(nid))
+    if target is None:
+        return
+    ctx.log('inspect', nid, arg)
+    try:
+        _do_inspect(target, what)
+    except Exception as exc:                            # pylint: disable=W0703
+        # the inspection itself is not what is judged here
+        ctx.log('inspect_error', nid, type(exc).__name__)
+
+
+def _do_inspect(target, what):
+    if what == 'list':
+        target.list()
+    elif what == 'cycles':
+        target.check_cycles()
+    elif what == 'topo':
+        for _ in target.topological_order():
+            pass
+    elif what == 'stats':
+        target.stats()
+        repr(target)
+    elif what == 'exits':
+        list(target.exit_jobs())
+        list(target.entry_jobs())
 
 
 class _NodeMixin:
@@ -116,7 +152,7 @@ class _JobMixin(_NodeMixin):
         ctx, nid, spec = self.ctx, self.nid, self.spec
         ctx.log('enter', nid)
         try:
-            await _spend(spec['script'])
+            await _spend(spec['script'], ctx, nid)
             outcome = spec['outcome']
             if outcome == 'never_fut':
                 await ctx.loop.create_future()
